@@ -21,6 +21,8 @@ pub enum Kind {
     AsyncEop,
     AsyncMethod,
     AsyncTrait,
+    /// hand-written `fn f(..) -> Pin<Box<dyn Future>> { prefix; Box::pin(async move { .. }) }`
+    BoxPinTail,
 }
 
 #[derive(Clone, Copy, Debug, Serialize, Deserialize, PartialEq)]
@@ -113,6 +115,7 @@ fn spec() -> BoxedStrategy<FnSpec> {
         2 => Just(Kind::AsyncEop),
         1 => Just(Kind::AsyncMethod),
         2 => Just(Kind::AsyncTrait),
+        1 => Just(Kind::BoxPinTail),
     ];
     let argty = prop_oneof![
         3 => Just(ArgTy::I64),
@@ -127,7 +130,7 @@ fn spec() -> BoxedStrategy<FnSpec> {
     let key = prop_oneof![3 => "[a-z][a-z0-9_.]{0,8}", 1 => Just("ключ".to_string()), 1 => Just("k 😀".to_string()), 1 => Just("".to_string())];
     let prop = (key, 0u8..5, any::<u8>()).prop_map(|(key, form, arg)| Prop { key, form, arg });
     kind.prop_flat_map(move |k| {
-        let is_async = matches!(k, Kind::AsyncFree | Kind::AsyncEop | Kind::AsyncMethod | Kind::AsyncTrait);
+        let is_async = matches!(k, Kind::AsyncFree | Kind::AsyncEop | Kind::AsyncMethod | Kind::AsyncTrait | Kind::BoxPinTail);
         (
             Just(k),
             proptest::collection::vec(argty.clone(), 0..4),
@@ -144,10 +147,28 @@ fn spec() -> BoxedStrategy<FnSpec> {
         if kind == Kind::AsyncEop {
             props.clear(); // enter_on_poll cannot be used with properties
         }
-        if kind == Kind::AsyncTrait && naming == 0 {
-            naming = 2; // default path name inside async-trait bodies is not pinned down by the docs
+        if matches!(kind, Kind::AsyncTrait | Kind::BoxPinTail) && naming == 0 {
+            naming = 2; // default path name inside async-trait-like bodies is not pinned down by the docs
         }
         let mut args = args;
+        let mut ret = ret;
+        let mut body = body;
+        if kind == Kind::BoxPinTail {
+            // the returned future must be 'static: by-value arguments only, no nested traced calls
+            args.retain(|a| matches!(a, ArgTy::I64 | ArgTy::U8 | ArgTy::Bool | ArgTy::OptI64));
+            fn strip(b: &mut Vec<Stmt>) {
+                b.retain(|s| !matches!(s, Stmt::Call(_)));
+                for s in b.iter_mut() {
+                    if let Stmt::Block(inner) = s {
+                        strip(inner);
+                    }
+                }
+            }
+            strip(&mut body);
+            if ret == Ret::Unit {
+                ret = Ret::I64;
+            }
+        }
         if matches!(kind, Kind::Generic | Kind::ImplTrait) {
             if args.is_empty() {
                 args.push(ArgTy::I64);
@@ -382,6 +403,28 @@ fn render_fn(s: &FnSpec, annotated: bool, before: &[FnSpec]) -> String {
         }
         let _ = writeln!(out, "    #[fastrace::trace({})]", margs.join(", "));
     }
+    if s.kind == Kind::BoxPinTail {
+        let ident = format!("f{}", s.id);
+        let rt_ = ret_ty(s).trim_start_matches(" -> ").to_string();
+        let _ = writeln!(out, "    #[allow(unused_mut, unused_variables, unused_assignments, unreachable_code, clippy::all)]");
+        let _ = writeln!(out, "    pub fn {}({}) -> std::pin::Pin<Box<dyn std::future::Future<Output = {}> + Send + 'static>> {{", ident, params.join(", "), rt_);
+        // statements in front of the Box::pin tail: plain side effects
+        let _ = writeln!(out, "        rt::log(format!(\"f{}:prefix\"));", s.id);
+        let _ = writeln!(out, "        let _pg = rt::DropLog::new(\"f{}.prefix-guard\");", s.id);
+        let _ = writeln!(out, "        Box::pin(async move {{");
+        let _ = writeln!(out, "        let _ct = rt::CallTrace::enter({}, fastrace::func_path!());", s.id);
+        let _ = writeln!(out, "        let mut acc: i64 = {};", s.id);
+        for (i, a) in s.args.iter().enumerate() {
+            let _ = writeln!(out, "        acc = acc.wrapping_mul(31).wrapping_add({});", as_i64(*a, &format!("a{}", i)));
+        }
+        let mut counter = 0u32;
+        render_body(s, &s.body, &mut out, 2, before, &mut counter);
+        let _ = writeln!(out, "        rt::log(format!(\"f{}:end:{{}}\", acc));", s.id);
+        let _ = writeln!(out, "        {}", ret_expr(s, false));
+        let _ = writeln!(out, "        }})");
+        let _ = writeln!(out, "    }}");
+        return out;
+    }
     let ident = format!("f{}", s.id);
     let vis = if s.kind == Kind::AsyncTrait { "" } else { "pub " };
     let _ = writeln!(out, "    #[allow(unused_mut, unused_variables, unused_assignments, unreachable_code, clippy::all)]");
@@ -441,7 +484,7 @@ fn render_module(specs: &[FnSpec], annotated: bool) -> String {
 
 fn render_driver(s: &FnSpec) -> String {
     let mut out = String::new();
-    let is_async = matches!(s.kind, Kind::AsyncFree | Kind::AsyncEop | Kind::AsyncMethod | Kind::AsyncTrait);
+    let is_async = matches!(s.kind, Kind::AsyncFree | Kind::AsyncEop | Kind::AsyncMethod | Kind::AsyncTrait | Kind::BoxPinTail);
     let _ = writeln!(out, "#[allow(unused_mut, unused_variables)]\npub fn drive_f{}(annotated: bool, inp: &rt::Inputs) -> rt::Outcome {{", s.id);
     let mut call_args = vec![];
     let mut muts = vec![];
@@ -558,7 +601,7 @@ fn main() {
     }
     let _ = writeln!(src, "pub static PAIRS: &[rt::Pair] = &[");
     for s in &specs {
-        let is_async = matches!(s.kind, Kind::AsyncFree | Kind::AsyncEop | Kind::AsyncMethod | Kind::AsyncTrait);
+        let is_async = matches!(s.kind, Kind::AsyncFree | Kind::AsyncEop | Kind::AsyncMethod | Kind::AsyncTrait | Kind::BoxPinTail);
         let _ = writeln!(
             src,
             "    rt::Pair {{ id: {}, ident: \"f{}\", naming: {}, name: {}, is_async: {}, eop: {}, nprops: {}, kind: \"{:?}\", drive: drive_f{}, props: props_f{}, spec: {} }},",
